@@ -78,6 +78,19 @@ def run(c):
     tracepath = os.path.join(c.work, "smt_trace.ndjson")
     rc, output = vlib.go_test("./pkg/trie/", "^TestVerifSmt$", env={"VERIF_IN": inpath, "VERIF_OUT": outpath,
                               "VERIF_TRACE": tracepath, "VERIF_SEED": c.seed, "VERIF_TIER": c.tier}, timeout=3000)
+    if rc != 0 and not os.path.exists(outpath) and vlib.crash_site(output):
+        # a panic inside the trie's own goroutines (updateParallel) cannot be recovered by any caller: it ends the process,
+        # the harness as it would the node.  Confirm that it happens again at the same site before reporting it.
+        site = vlib.crash_site(output)
+        rc2, output2 = vlib.go_test("./pkg/trie/", "^TestVerifSmt$", env={"VERIF_IN": inpath, "VERIF_OUT": outpath, "VERIF_TRACE": tracepath,
+                                    "VERIF_SEED": c.seed, "VERIF_TIER": c.tier}, timeout=3000)
+        site2 = vlib.crash_site(output2) if rc2 != 0 and not os.path.exists(outpath) else None
+        if site2 and site2[1] == site[1]:
+            c.count(("process-ended", site[1]))
+            c.violation({"kind": "panic", "where": "trie-goroutine"}, {"input": inpath, "panic": site[0], "site": site[1]},
+                        "an update of legitimate batches ends the process: %s at %s (twice, same site)" % site)
+            return
+        raise vlib.Infra("harness died and the death did not reproduce:\n" + output[-3000:])
     r = c.absorb_go(outpath, output)
     if rc != 0 and not r.get("violations"):
         raise vlib.Infra("harness failed:\n" + output[-3000:])
